@@ -16,6 +16,8 @@ import os
 
 ROOT = os.path.dirname(os.path.dirname(os.path.abspath(__file__)))
 PATH = os.path.join(ROOT, "known_findings.json")
+# private copy for module builders (proposed entries not yet merged by the lead)
+PATH = os.environ.get("LOV_FINDINGS", PATH)
 
 
 def load():
